@@ -833,6 +833,8 @@ package avro
 //     outer loop: one iteration per block
 //@   loop 1 invariant wfRBS(r) && r.buf == b0 && sameobj(b0) && i0 <= r.i && r.rb == rb0 && bhframe(sd0) && (base(r.rb.sData) == base(sd0) || newobj(r.rb.sData))
 //@   loop 1 invariant rawalloc(p, 24) && memframe(p, 24) && hdrOK(p, sz) && (hC(p) > 0 ==> rawfresh(ptr(hD(p)), hC(p) * sz))
+//@   loop 1 invariant oldalloc(p, 24) && (hC(p) * sz > 0 ==> uintptr(p) + 24 <= uintptr(hD(p)) || uintptr(hD(p)) + uintptr(hC(p) * sz) <= uintptr(p))
+//@   loop 1 uses fresh_disjoint(p, 24, ptr(hD(p)), hC(p) * sz)
 //@   loop 1 invariant [C04] blk(rc, b0, i0) == blk(rc, b0, r.i)
 //@   loop 1 uses blk_unfold(rc, b0, r.i)
 //@   loop 1 uses umul_exactl(0, sz)
@@ -840,6 +842,10 @@ package avro
 //     inner loop: i of count items of this block have been decoded
 //@   loop 2 invariant wfRBS(r) && r.buf == b0 && sameobj(b0) && i0 <= r.i && r.rb == rb0 && bhframe(sd0) && (base(r.rb.sData) == base(sd0) || newobj(r.rb.sData))
 //@   loop 2 invariant rawalloc(p, 24) && memframe(p, 24) && hdrOK(p, sz) && (hC(p) > 0 ==> rawfresh(ptr(hD(p)), hC(p) * sz))
+//@   loop 2 invariant oldalloc(p, 24) && (hC(p) * sz > 0 ==> uintptr(p) + 24 <= uintptr(hD(p)) || uintptr(hD(p)) + uintptr(hC(p) * sz) <= uintptr(p))
+//@   loop 2 uses fresh_disjoint(p, 24, ptr(hD(p)), hC(p) * sz)
+//@   loop 2 uses sub_range_disjoint(uint64(uintptr(p)), 24, hD(p), uint64(hC(p) * sz), uint64(hL(p) * sz), uint64((hC(p) - hL(p)) * sz))
+//@   loop 2 uses umul_add(hL(p), hC(p) - hL(p), sz)
 //@   loop 2 invariant 0 <= i && i <= count && count <= 2147483647 && hL(p) + int(count - i) <= hC(p) && itemSize == uintptr(sz) && len(b0) - r.i < loopdec(1)
 //@   loop 2 invariant [C04] blk(rc, b0, i0) == blk(rc, b0, items(rc, b0, r.i, count - i))
 //@   loop 2 uses items_unfold(rc, b0, r.i, count - i)
@@ -848,4 +854,24 @@ package avro
 //@   loop 2 uses umul_mono(hL(p), hL(p) + 1, sz)
 //@   loop 2 uses umul_exact(1, sz)
 //@   loop 2 decreases count - i
-//@   loop 2 progress r.i
+//     snapshot of the header at the head of an iteration; address arithmetic comes from lemmas proved in isolation
+//@   loop 2 let hd0 := hD(p), hl0 := hL(p), hc0 := hC(p)
+//@   loop 2 apply sub_range_disjoint(uint64(uintptr(p)), 24, hd0, uint64(hc0 * sz), uint64(hl0 * sz), uint64(sz)) when i < count && sz > 0
+//@   loop 2 apply sub_range_disjoint(uint64(uintptr(p)), 24, hd0, uint64(hc0 * sz), uint64(hl0 * sz), uint64((hc0 - hl0) * sz)) when i < count && sz > 0
+//@   loop 2 apply sub_range_disjoint(uint64(uintptr(p)), 24, hd0, uint64(hc0 * sz), uint64((hl0 + 1) * sz), uint64((hc0 - hl0 - 1) * sz)) when i < count && sz > 0
+//@   loop 2 apply range_split(hd0 + uint64(hl0 * sz), uint64(sz), hd0 + uint64((hl0 + 1) * sz), uint64((hc0 - hl0 - 1) * sz), uint64((hc0 - hl0) * sz)) when i < count && sz > 0
+//@   loop 2 apply range_split(hd0 + uint64(hl0) * uint64(itemSize), uint64(dsz(rc.itemCodec)), hd0 + uint64((hl0 + 1) * sz), uint64((hc0 - hl0 - 1) * sz), uint64((hc0 - hl0) * sz)) when i < count && sz > 0
+//@   loop 2 apply sub_range_in(hd0, uint64(hc0 * sz), uint64(hl0) * uint64(itemSize), uint64(dsz(rc.itemCodec))) when i < count && sz > 0
+//@   loop 2 apply sub_range_in(hd0, uint64(hc0 * sz), uint64((hl0 + 1) * sz), uint64((hc0 - hl0 - 1) * sz)) when i < count && sz > 0
+//@   loop 2 apply sub_range_in(hd0, uint64(hc0 * sz), uint64(hl0 * sz), uint64((hc0 - hl0) * sz)) when i < count && sz > 0
+//@   loop 2 uses umul_add(hl0, hc0 - hl0, sz)
+//@   loop 2 uses umul_mono(1, hc0 - hl0, sz)
+//@   loop 2 uses umul_add(hl0 + 1, hc0 - hl0 - 1, sz)
+//@   loop 2 uses umul_add(1, hc0 - hl0 - 1, sz)
+//@   loop 2 uses umul_mono(0, hc0 - hl0 - 1, sz)
+//     C06 (allocation proportional to the input): the block is allocated before any item is read; the bytes
+//     requested must be bounded by a constant multiple of the input length
+//@   after resizeSlice#1 check [C06] int(count) * sz <= 4096 * len(b0)
+//@   after Read#1 assert hD(p) == hd0 && hL(p) == hl0 && hC(p) == hc0
+//@   after Read#1 assert zeroed(uintptr(hd0) + uintptr((hl0 + 1) * sz), (hc0 - hl0 - 1) * sz)
+//@   after Read#1 apply sub_range_disjoint(uint64(uintptr(p)), 24, hD(p), uint64(hC(p) * sz), uint64((hL(p) + 1) * sz), uint64((hC(p) - (hL(p) + 1)) * sz)) when sz > 0
